@@ -265,7 +265,15 @@ func w9CComp(codec string, chunks [][]byte) string {
 			continue
 		}
 		seen[string(payload)] = true
+		if codec == "snappy" {
+			// the checksum behind the snappy stream is the model's to compute
+			items = append(items, cPair(w9CUB(payload), w9CUB(raw[:len(raw)-4])))
+			continue
+		}
 		items = append(items, cPair(w9CUB(payload), w9CUB(raw)))
+	}
+	if codec == "snappy" {
+		return cApp("CSnappy", cList(items))
 	}
 	return cApp("CTable", cList(items))
 }
